@@ -104,13 +104,6 @@ Proof.
   destruct (t_unix_user_fn te); rewrite !orb_false_r in H; exact H.
 Qed.
 
-(* ---------- the assertion in _dbus_string_skip_blank ---------- *)
-Definition env0 (asserts : bool) : env :=
-  mkEnv creds_empty None [] false asserts 0 (fun _ => None) [] true (fun _ => None) (fun _ => []) (fun _ => None).
-
-Theorem abort_witness : a_state (fst (process_line (env0 true) core_init [65; 85; 84; 72; 32; 10])) = Crashed.
-Proof. vm_compute. reflexivity. Qed.
-
 (* ---------- the specification's state machine, over whole conversations ---------- *)
 From DV Require Import Spec.AuthSpec Proofs.AuthLex Proofs.AuthRefine.
 
@@ -157,11 +150,5 @@ Definition env1 (asserts : bool) : env :=
 Theorem responses_refuted_odd_hex : ~ responses_full_statement.
 Proof.
   intros H. specialize (H (env1 false) core_init [65;85;84;72;32;69;88;84;69;82;78;65;76;32;51] (Inv_init _) eq_refl).
-  vm_compute in H. discriminate.
-Qed.
-
-Theorem responses_refuted_abort : ~ responses_full_statement.
-Proof.
-  intros H. specialize (H (env1 true) core_init [65;85;84;72;32;10] (Inv_init _) eq_refl).
   vm_compute in H. discriminate.
 Qed.
